@@ -291,10 +291,14 @@ impl Prop for Corruptions {
         let alignment = t.chance(0.3);
         let times = if t.chance(0.5) { gen_text_times(t, n, 50000.0, 10.0, 5.9e9) } else { vec![None; n] };
         let mut lines = timed_lines(&labels, &times);
-        let k = t.urange(1, 3.min(n));
+        let k = t.urange(1, 3);
         let mut ops = Vec::new();
+        let mut i = t.below(n);
         for _ in 0..k {
-            let i = t.below(n);
+            // 60 %: pile the next corruption onto the same line (structural change + character-level change)
+            if !t.chance(0.6) {
+                i = t.below(n);
+            }
             let (s, name) = corrupt_line(t, &lines[i], alignment);
             lines[i] = s;
             ops.push(name);
